@@ -270,15 +270,40 @@ def _reshape_flat(I, a, dims, neg):
     dst_all = Dim([f for d in dims for f in d.factors])
     src_shape = a.shape
 
+    src_un = [f for d in a.shape for f in d.factors]
+    dst_un = [f for d in dims for f in d.factors]
+
     def fn(idx):
-        tdig = [c for comp in idx for c in comp]
-        sdig = convert_comps(dst_all, src_all, tdig)
+        # Dim merges adjacent concrete factors (also across the axis boundaries joined here): the digits of the
+        # joined axes are merged / split accordingly
+        tdig = merge_digits(dst_un, [c for comp in idx for c in comp])
+        sdig = split_digits(src_un, list(convert_comps(dst_all, src_all, tdig)))
         out, p = [], 0
         for d in src_shape:
             out.append(tuple(sdig[p : p + len(d.factors)])); p += len(d.factors)
         return a.at(out)
 
     return STensor(dims, fn, a.dtype)
+
+
+def merge_digits(unmerged, digs):
+    """one digit per (un-merged) factor -> digits of Dim(unmerged) (adjacent concrete factors form one digit)"""
+    norm = [core._norm_factor(f) for f in unmerged]
+    out, i = [], 0
+    while i < len(norm):
+        if isinstance(norm[i], int):
+            run, rd = [], []
+            while i < len(norm) and isinstance(norm[i], int):
+                run.append(norm[i]); rd.append(digs[i]); i += 1
+            prod = 1
+            for r in run:
+                prod *= r
+            if prod != 1:
+                keep = [(d, r) for d, r in zip(rd, run) if r != 1]
+                out.append(_digits_join([d for d, _ in keep], [r for _, r in keep]))
+        else:
+            out.append(digs[i]); i += 1
+    return out
 
 
 # ----------------------------------------------------------------------------- simple shape ops
@@ -1104,7 +1129,12 @@ def getitem(I, t, key):
                 p += 1
         return a.at(full)
 
-    out = Tensor(STensor(shape, fn, a.dtype))
+    val = STensor(shape, fn, a.dtype)
+    if not adv and not _NO_VIEW[0]:
+        # basic indexing: the result shares the storage of t (torch view)
+        out = tlib.make_view(t, val, lambda bv, key0=tuple(key): _getitem_value(I, bv, key0), lambda bv, nv, key0=tuple(key): _setitem_value(I, bv, key0, nv), t.contig and _basic_key_contiguous(key))
+    else:
+        out = Tensor(val)
     if t.requires_grad or "deps" in t.meta:
         out.meta["view_of"] = t
     # remember gathers / selector slices for setitem and len()
@@ -1119,6 +1149,63 @@ def getitem(I, t, key):
             out.meta["sel"] = (sel, newM, off)
     out.meta["base"] = (t, key)
     return out
+
+
+_NO_VIEW = [False]
+
+
+def _getitem_value(I, bv, key):
+    """value of bv[key] (no new aliasing)"""
+    _NO_VIEW[0], old = True, _NO_VIEW[0]
+    try:
+        return getitem(I, Tensor(bv), key).val
+    finally:
+        _NO_VIEW[0] = old
+
+
+def _setitem_value(I, bv, key, nv):
+    """value of the base after base[key] = nv, for a basic key (ints, slices, None)"""
+    tmp = Tensor(bv)
+    if any(k is None for k in key):
+        # the inserted axes carry no data: drop them from the key and from the value
+        res_axis, new_axes = 0, []
+        for k in key:
+            if k is None:
+                new_axes.append(res_axis); res_axis += 1
+            elif isinstance(k, slice):
+                res_axis += 1
+        keep = [q for q in range(nv.rank) if q not in new_axes]
+
+        def fn(idx, nv=nv):
+            full, it = [], iter(idx)
+            for q in range(nv.rank):
+                full.append(() if q in new_axes else next(it))
+            return nv.at(full)
+
+        nv = STensor([nv.shape[q] for q in keep], fn, nv.dtype)
+        key = tuple(k for k in key if k is not None)
+    setitem(I, tmp, key if len(key) != 1 else key[0], Tensor(nv))
+    return tmp.val
+
+
+def _basic_key_contiguous(key):
+    """ints on the leading axes, then at most one step-1 slice, then only full slices: a contiguous block"""
+    state = 0  # 0: leading ints, 1: after the partial slice (only full slices may follow)
+    for k in key:
+        if k is None:
+            continue
+        if isinstance(k, slice):
+            full = k.start is None and k.stop is None and k.step is None
+            if state == 0:
+                if not full and not (k.step is None or (isinstance(k.step, int) and k.step == 1)):
+                    return False
+                state = 1
+            elif not full:
+                return False
+        else:
+            if state != 0:
+                return False
+    return True
 
 
 def _int_index(I, d, k):
